@@ -2,10 +2,10 @@ INIT Init
 NEXT Next
 VIEW view
 CONSTANTS
-  PNorm <- AlphaColl
+  PNorm <- AlphaCollT
   PLit <- NoChars
   PMacro <- CollMacros
-  PLen = 6
+  PLen = 5
   SAlpha <- StrFull
   SLen = 3
   Kind = "match"
